@@ -122,9 +122,9 @@ def check_dispatch(case):
 
 
 def dispatch_cases():
-    tls = [None, [2], [5], [2, 5], []]
+    tls = [None, [2], [5], [2, 5], [], [0], [0, 2]]
     for kind, before in KINDS:
-        for now in (2, 5):
+        for now in (2, 5, 0):        # time 0 (the first step of the first session) is a time like any other
             for t1 in tls:
                 for t2 in tls:
                     flts = [None, "class", "instance", "both", "both_ok"] if kind == "market" else [None]
